@@ -86,8 +86,13 @@ def run_shard(mod, ctx: Ctx, props: dict[str, Any], replay_case: Any = None) -> 
                 try:
                     with core.case_watchdog(wd_s):
                         mod.judge(ctx, case)
+                except core.WorkloadTooHeavy:
+                    ctx.count("workload_too_heavy_skipped")
+                    if ctx.counters["workload_too_heavy_skipped"] > 25:
+                        ctx.inconclusive("more than 25 cases were skipped because one library call used too much CPU")
+                        break
                 except core.CaseWatchdog as e:
-                    ctx.inconclusive(f"{e}: {json.dumps(case, default=repr)[:300]}")
+                    ctx.inconclusive(f"{e}: {json.dumps(case, default=repr)[:3000]}")
                     ctx.count("case_watchdog_fired")
                     if ctx.counters["case_watchdog_fired"] >= 3:
                         break
